@@ -30,7 +30,12 @@ ASSUMPTIONS = [
     "async endpoints, unlimited/limited timeouts, other call orders, short/refused writes and the agreement of the reference "
     "engine with OpenSSL rest on the pairing matrix run here (complete in the thorough tier)",
 ]
-TRUSTED = ["system OpenSSL 3 (libssl/libcrypto)", "link-time interposition of SSL_read/SSL_write_ex/BIO_get_data in the harness"]
+TRUSTED = ["system OpenSSL 3 (libssl/libcrypto)", "link-time interposition of SSL_read/SSL_write_ex/BIO_get_data in the harness",
+           "the run-time property predicate is lean/SockModel/Spec/C18.lean (typed observations Obs, specStep / specRun / specFinal; "
+           "Drive/C18.lean only parses lines into Obs); its event-by-event part specRun is proved to accept every trace of the glue model "
+           "(spec_holds_on_model_partial); NOT linked to the model: the end-of-case clauses specFinal (wire format = OpenSSL's output, "
+           "payload round trip, completion, 'a non-TLS peer is reported': statements about both engines, the channel and the schedule) "
+           "and the parsing of transcript lines into Obs"]
 ALL_TAGS = ["send.unlimited", "send.zero", "send.limited", "recv.unlimited", "recv.zero", "recv.limited",
             "query.pollout", "query.suppressed", "query.idle", "task.readable", "task.writable", "task.pending",
             "step.idle", "enq", "query.received"]
@@ -169,7 +174,8 @@ def gen(rng, tier):
 
 
 TECHNIQUE = ("Lean 4 theorems about an executable model of the TLS glue over an abstract engine (interaction trees) and an abstract OS, "
-             "+ model/implementation correspondence with real OpenSSL 3 (engine and OS answers replayed into the model call by call)")
+             "+ model/implementation correspondence with real OpenSSL 3 (engine and OS answers replayed into the model call by call) "
+             "+ a run-time oracle (Spec/C18.lean) whose event-by-event clauses are a theorem of the model (simulation relation, induction over the history)")
 LEVEL_TEXT = ("Machine-checked theorems about the library's TLS glue (Read/Write retry loops, error handling, BIO tunnel, "
               "DriverQuery/DriverPending, the four entry points, the async send queue) for EVERY engine behaviour and EVERY OS "
               "behaviour: raw sends carry exactly the bytes the engine handed to the write BIO and application bytes cannot influence "
@@ -186,8 +192,17 @@ LEVEL_TEXT = ("Machine-checked theorems about the library's TLS glue (Read/Write
               "composition (legacy_stall_state_reached, legacy_polling_schedule_stalls: handshake done, channels empty for ever); for the other "
               "pairings / timeout modes / call orders it is established by the exhaustive implementation matrix only. C07 for the TLS glue (DESIGN 0.14): for every engine, world, starting state and number of rounds / BIO calls / partial sends, with every wait read off a logging world (logging_is_transparent): timeout 0 issues only zero waits and lets no time pass (tls_zero_never_blocks); a negative timeout issues only unlimited waits and, with a blocking engine, never returns nothing / a short count (tls_unlimited_waits, tls_unlimited_receive_never_nothing, tls_unlimited_send_complete); a non-negative budget never turns negative in any world (tls_budget_never_negative); a positive timeout T: every wait argument t satisfies 0 <= t <= T - elapsed and the call returns by entry+T (tls_limited_budget, under ClockOk and Engine.FailStop); the seeded BioRead-without-write-back is refuted as a counter-model with total wait 2T (seeded_bioRead_doubles_the_wait) and each engine hypothesis is shown necessary (stale_budget_after_callback_failure, stale_budget_after_empty_write, unlimited_receive_needs_blocking_engine). Tied to /repo on every run: the real sockets run the pairing matrix against real OpenSSL; "
               "every SSL_read/SSL_write_ex answer, BIO callback and poll/send/recv is replayed into the model, which must make the "
-              "same calls and return the same results; Spec.C18 is evaluated on the raw bytes and API results.")
-LEVEL_NOTE = ("The C07 budget theorems for the TLS glue assume A-CLOCK (ClockOk: clock monotone across waits, a wait(t>=0) returns within t, send/recv on the non-blocking descriptor take no time) and, for T>0, A-SSL fail-stop (after a BIO callback returned -1 libssl makes no further BIO call and reports no success; BIO_write is never invoked with 0 bytes): UnderDeadline/BioWrite do not write the budget back on the exception path and a zero-length SendSome that times out restores the full budget - latent, unreachable with libssl, witnesses in Props/C18.lean. handshake_completes is proved ONLY in the restricted form handshake_completes_partial (sync/sync, timeout 0, polling "
+              "same calls and return the same results; Spec.C18 (lean/SockModel/Spec/C18.lean: specRun, then specFinal) is evaluated on the raw bytes and API results. "
+              "The oracle is tied to the model: spec_holds_on_model_partial - for every glue configuration, every kernel with the harness's virtual clock, every engine "
+              "under the contract EngOk (plaintext only after init_finished and never from a non-TLS peer; fail-stop), every fresh pair of endpoints "
+              "(sync / async / absent, TLS or plain peer) and every history of any length (Send/Receive with any timeout, Send(buffer), driver steps with any "
+              "poll result, any interleaving) in which no assert of the glue fires, specRun accepts the model's trace: the C07 budget clauses, 'nothing delivered "
+              "before done+init_finished / from a non-TLS peer / as an empty buffer', 'disconnect handler at most once' and MSG_NOSIGNAL are consequences of the model; "
+              "the oracle is never stricter than the model on these clauses.")
+LEVEL_NOTE = ("spec_holds_on_model_partial covers the event-by-event clauses (Spec.specRun) only: the end-of-case clauses (Spec.specFinal: wire format, "
+              "received = prefix / all of what the peer sent, no failure on a healthy connection, exchange not stuck, a non-TLS peer is reported) are about OpenSSL, the "
+              "channel and the schedule and are checked on the implementation only; hypotheses: VClock (A-CLOCK + a wait that times out waited its whole timeout), EngOk, "
+              "no assert fires (a firing assert is a crash and is rejected by the predicate). The C07 budget theorems for the TLS glue assume A-CLOCK (ClockOk: clock monotone across waits, a wait(t>=0) returns within t, send/recv on the non-blocking descriptor take no time) and, for T>0, A-SSL fail-stop (after a BIO callback returned -1 libssl makes no further BIO call and reports no success; BIO_write is never invoked with 0 bytes): UnderDeadline/BioWrite do not write the budget back on the exception path and a zero-length SendSome that times out restores the full budget - latent, unreachable with libssl, witnesses in Props/C18.lean. handshake_completes is proved ONLY in the restricted form handshake_completes_partial (sync/sync, timeout 0, polling "
               "schedule, reference engine, healthy channel, any read segmentation); the pre-ee81033 variant is refuted at the single-endpoint "
               "level only (the healthy channel of the composition never refuses a write). Trusted: Lean kernel; axioms propext/Quot.sound/Classical.choice; the hand-written model (correspondence on the "
               "generated matrix only); harness, vos shim and the OpenSSL interposers. Confidentiality and the TLS protocol itself are "
